@@ -398,6 +398,17 @@ def _check_observed(src, o15, res, count):
                         for pb in probs:
                             res["problems"].append({"focus": "dotted:" + pb[0], "offset": o, "later_locals": ll,
                                                     "detail": repr(pb[1:])})
+        if pos.from_import and not pos.in_ignored:
+            # the list of names of a single-line from-import: names of the module (the helper module exists)
+            before = src[src.rfind("\n", 0, o) + 1:o]
+            for ll, got in ((True, pt), (False, pf)):
+                if isinstance(got, set):
+                    sig = c20_sweep.from_import_oracle(before, got)
+                    if sig is not None:
+                        count("offsets:from-import-names")
+                    if sig:
+                        res["problems"].append({"focus": sig, "offset": o, "later_locals": ll,
+                                                "detail": repr(sorted(got)[:6])})
         if pos.dotted or pos.from_import or pos.in_ignored or not pos.name_position:
             count("offsets:oracle-prefix-only")
             cls = "dotted" if pos.dotted else ("from-import" if pos.from_import else (
@@ -821,86 +832,170 @@ def write_witnesses(path=None):
 SESSION_NAMES = ["circle", "cirque", "cone", "cube", "curve", "square", "sphere", "spline"]
 
 
-def gen_session(rng):
+SHADOWED = ["colorsys", "bisect", "keyword", "textwrap"]        # small stdlib modules found on the python path
+
+
+def _lib_text(rng, names):
+    body = []
+    for i, n in enumerate(names):
+        body.append(rng.choice(["def %s(al):\n    return al\n", "%s = %d\n" % ("%s", i), "class %s:\n    size = 1\n"]) % n)
+        if rng.random() < 0.4:
+            body.append("\n# note\n")
+    return "".join(body)
+
+
+def gen_session(rng, kind=None):
+    """a session = files of a project, the unchanged module use.py that is asked about, and steps that change the
+    OTHER files between the requests:
+      rewrite  the library that use.py star-imports is rewritten through rope (names come and go)
+      broken   the library that use.py star- / from-imports gets a syntax error, a request is made, it is repaired
+      shadow   use.py imports a stdlib module; a project module of that name is created (empty, through rope) and
+               later filled from outside rope"""
+    kind = kind or rng.choice(["rewrite", "broken", "shadow"])
     names = list(SESSION_NAMES)
     rng.shuffle(names)
-    versions = []
     cur = names[:rng.randint(2, 4)]
-    for _ in range(rng.randint(2, 3)):
-        body = []
-        for i, n in enumerate(cur):
-            body.append(rng.choice(["def %s(al):\n    return al\n", "%s = %d\n" % ("%s", i), "class %s:\n    size = 1\n"]) % n)
-            if rng.random() < 0.4:
-                body.append("\n# note\n")
-        versions.append("".join(body))
-        nxt = [n for n in cur if rng.random() < 0.75]
-        nxt += [n for n in names if n not in cur and rng.random() < 0.4]
-        cur = nxt or names[:2]
+    if kind == "shadow":
+        mod = rng.choice(SHADOWED)
+        attr = {"colorsys": "rgb_to_hls", "bisect": "insort", "keyword": "iskeyword", "textwrap": "dedent"}[mod]
+        use = "import %s\n\n\ndef fo(al):\n    return %s.%s(al)\n\nxa = %s.%s\n" % (mod, mod, attr, mod, attr[:3])
+        steps = [{"op": "create", "path": mod + ".py"}]
+        prefs = {}
+        r = rng.random()
+        text = _lib_text(rng, cur) + "%s = 1\n" % attr[:3]
+        if r < 0.35:
+            steps.append({"op": "write_outside", "path": mod + ".py", "text": text})
+        elif r < 0.7:
+            prefs = {"automatic_soa": False}
+            steps.append({"op": "write", "path": mod + ".py", "text": text})
+        if rng.random() < 0.4:
+            steps.append({"op": "remove", "path": mod + ".py"})
+        return {"kind": "session", "session": kind, "files": {}, "use": use, "steps": steps, "prefs": prefs}
     picks = rng.sample(SESSION_NAMES, 3)
-    use = ("from shapes import *\n\n\ndef fo(al):\n    alp = %s\n    return alp, al, %s\n\nxa = %s\n"
-           % (picks[0][:2], picks[1][:3], picks[2]))
-    return {"kind": "session", "versions": versions, "use": use}
+    if kind == "broken" and rng.random() < 0.5:
+        imp = "from shapes import %s" % ", ".join(cur[:2])
+        used = [cur[0], cur[1], cur[0]]
+    else:
+        imp = "from shapes import *"
+        used = [picks[0][:2], picks[1][:3], picks[2]]
+    use = "%s\n\n\ndef fo(al):\n    alp = %s\n    return alp, al, %s\n\nxa = %s\n" % (imp, used[0], used[1], used[2])
+    files = {"shapes.py": _lib_text(rng, cur)}
+    steps = []
+    for _ in range(rng.randint(1, 2)):
+        if kind == "broken":
+            bad = _lib_text(rng, cur) + rng.choice(["def (:\n", "x = (1,\n", "class :\n    pass\n", "  return 1\n"])
+            steps.append({"op": "write", "path": "shapes.py", "text": bad})
+            if rng.random() < 0.5:
+                cur = [n for n in cur if rng.random() < 0.8] + [n for n in names if n not in cur and rng.random() < 0.3]
+                cur = cur or names[:2]
+        else:
+            nxt = [n for n in cur if rng.random() < 0.75]
+            nxt += [n for n in names if n not in cur and rng.random() < 0.4]
+            cur = nxt or names[:2]
+        steps.append({"op": "write", "path": "shapes.py", "text": _lib_text(rng, cur)})
+    return {"kind": "session", "session": kind, "files": files, "use": use, "steps": steps}
 
 
 def run_session(obj):
     """returns None or a description of the first deviation"""
     import shutil
     import tempfile
+    from rope.base import exceptions
     from rope.base.project import Project
     from rope.contrib import codeassist, findit
+    if "versions" in obj:                                  # the format of earlier replay files
+        obj = dict(obj, files={"shapes.py": obj["versions"][0]},
+                   steps=[{"op": "write", "path": "shapes.py", "text": t} for t in obj["versions"][1:]])
     use = obj["use"]
     offsets = [m.end() for m in re.finditer(r"[A-Za-z_]+", use)]
     d = tempfile.mkdtemp(prefix="ropeverif-c20x-")
+
+    def one(f):
+        try:
+            with c20_sweep.time_limit():
+                return f()
+        except exceptions.ModuleSyntaxError:
+            return "ModuleSyntaxError"
 
     def ask(project):
         res = project.get_resource("use.py")
         out = []
         for o in offsets:
-            with c20_sweep.time_limit():
-                ps = codeassist.code_assist(project, use, o, resource=res)
-            out.append(("assist", o, tuple(sorted((p.name, p.scope) for p in ps))))
-            with c20_sweep.time_limit():
+            out.append(("assist", o, one(lambda: tuple(sorted(
+                (p.name, p.scope) for p in codeassist.code_assist(project, use, o, resource=res))))))
+
+            def definition():
                 r, line = codeassist.get_definition_location(project, use, o - 1, resource=res)
-            out.append(("definition", o, (None if r is None else r.path, line)))
-            with c20_sweep.time_limit():
+                return (None if r is None else r.path, line)
+
+            def find():
                 loc = findit.find_definition(project, use, o - 1, resource=res)
-            out.append(("find", o, None if loc is None else (loc.resource.path if loc.resource else None, loc.lineno)))
+                return None if loc is None else (loc.resource.path if loc.resource else None, loc.lineno)
+
+            out.append(("definition", o, one(definition)))
+            out.append(("find", o, one(find)))
         return out
 
-    try:
-        live = Project(d, ropefolder=None)
+    def all_valid():
+        for fn in os.listdir(d):
+            if fn.endswith(".py") and not c20_sweep.is_valid(open(os.path.join(d, fn)).read()):
+                return False
+        return True
+
+    def compare(label):
+        got = ask(live)
+        if not all_valid():
+            return None                                   # a broken library: a refusal or an answer, both fine
+        fresh = Project(d, ropefolder=None)
         try:
-            lib = live.root.create_file("shapes.py")
-            lib.write(obj["versions"][0])
+            want = ask(fresh)
+        finally:
+            fresh.close()
+        for g, w in zip(got, want):
+            if g != w:
+                return "%s, %s at offset %d: live project %r, fresh project %r" % (label, g[0], g[1], g[2], w[2])
+        lib = os.path.join(d, "shapes.py")
+        if use.startswith("from shapes import *") and os.path.exists(lib):
+            public = set(c20_oracle.Oracle.public_names(open(lib).read()))
+            for (what, o, val) in got:
+                if what == "assist" and val != "ModuleSyntaxError":
+                    pre = re.search(r"[A-Za-z_]*$", use[:o]).group()
+                    line_start = use.rfind("\n", 0, o) + 1
+                    if use[line_start:o].lstrip().startswith(("from", "def")) or use[:o].endswith("."):
+                        continue
+                    names = {n for (n, _s) in val}
+                    for x in sorted(public):
+                        if x.startswith(pre) and x not in names:
+                            return "%s the star-imported %s is not offered for %r at offset %d" % (label, x, pre, o)
+                    for x in sorted(set(SESSION_NAMES) - public):
+                        if x in names:
+                            return "%s the removed name %s is still offered at offset %d" % (label, x, o)
+        return None
+
+    try:
+        live = Project(d, ropefolder=None, **obj.get("prefs", {}))
+        try:
+            for path, text in obj["files"].items():
+                live.root.create_file(path).write(text)
             live.root.create_file("use.py").write(use)
-            ask(live)                                     # warm the caches
-            for k, text in enumerate(obj["versions"]):
-                if k:
-                    lib.write(text)                       # through rope: observers run
-                got = ask(live)
-                fresh = Project(d, ropefolder=None)
-                try:
-                    want = ask(fresh)
-                finally:
-                    fresh.close()
-                for g, w in zip(got, want):
-                    if g != w:
-                        return "after version %d of shapes.py, %s at offset %d: live project %r, fresh project %r" % (
-                            k, g[0], g[1], g[2], w[2])
-                public = set(c20_oracle.Oracle.public_names(text))
-                for (what, o, val) in got:
-                    if what == "assist":
-                        pre = re.search(r"[A-Za-z_]*$", use[:o]).group()
-                        line_start = use.rfind("\n", 0, o) + 1
-                        if use[line_start:o].lstrip().startswith(("from", "def")) or use[:o].endswith("."):
-                            continue
-                        names = {n for (n, _s) in val}
-                        for x in sorted(public):
-                            if x.startswith(pre) and x not in names:
-                                return "after version %d of shapes.py the star-imported %s is not offered for %r at offset %d" % (k, x, pre, o)
-                        for x in sorted(set(SESSION_NAMES) - public):
-                            if x in names:
-                                return "after version %d of shapes.py the removed name %s is still offered at offset %d" % (k, x, o)
+            dev = compare("at the start")                  # also warms the caches
+            if dev:
+                return dev
+            for k, st in enumerate(obj["steps"]):
+                path = st["path"]
+                if st["op"] == "write":
+                    (live.get_resource(path) if live.root.has_child(path) else live.root.create_file(path)).write(st["text"])
+                elif st["op"] == "create":
+                    live.root.create_file(path)
+                elif st["op"] == "write_outside":
+                    with open(os.path.join(d, path), "w") as f:
+                        f.write(st["text"])
+                    live.validate(live.root)               # rope's way of learning about changes made outside
+                elif st["op"] == "remove":
+                    live.get_resource(path).remove()
+                dev = compare("after step %d (%s %s)" % (k + 1, st["op"], path))
+                if dev:
+                    return dev
         finally:
             live.close()
     finally:
@@ -909,11 +1004,11 @@ def run_session(obj):
 
 
 def run_sessions(ctx):
-    n = ctx.scale(4, 30)
-    for _ in range(n):
-        obj = gen_session(ctx.rng)
-        ctx.count("sessions")
-        ctx.case(("session", obj["use"], tuple(obj["versions"])), nontrivial=True)
+    n = ctx.scale(9, 45)
+    for i in range(n):
+        obj = gen_session(ctx.rng, kind=("rewrite", "broken", "shadow")[i % 3])
+        ctx.count("sessions:" + obj["session"])
+        ctx.case(("session", obj["use"], repr(obj["steps"])), nontrivial=True)
         dev = None
         for attempt in range(2):
             try:
